@@ -235,7 +235,7 @@ fn body_built(ch: &Ch) -> Run {
   } else {
     let len = ch.shape("chain_len", 14);
     let terminal = ch.shape("terminal", TERMINALS.len());
-    let types = ch.shape("types_dep", 3); // none / loaded / missing
+    let types = ch.shape("types_dep", 5); // none / loaded / missing / loaded behind 1 redirect / behind 2 redirects
     for i in 0..len {
       loader.add(&r(i), Entry::Redirect(url(&r(i + 1))));
     }
@@ -244,11 +244,16 @@ fn body_built(ch: &Ch) -> Run {
         let headers: Vec<(&str, &str)> = match types {
           0 => vec![],
           1 => vec![("x-typescript-types", "https://x/t_types.d.ts")],
-          _ => vec![("x-typescript-types", "https://x/t_missing.d.ts")],
+          2 => vec![("x-typescript-types", "https://x/t_missing.d.ts")],
+          3 => vec![("x-typescript-types", "https://x/t_hop1.d.ts")],
+          _ => vec![("x-typescript-types", "https://x/t_hop2.d.ts")],
         };
         loader.add(&r(len), Entry::with_headers(b"export const a = 1;", &headers));
-        if types == 1 {
+        if matches!(types, 1 | 3 | 4) {
           loader.add("https://x/t_types.d.ts", Entry::text("export declare const a: number;"));
+          // the types specifier itself may be a redirect source
+          loader.add("https://x/t_hop1.d.ts", Entry::Redirect(url("https://x/t_types.d.ts")));
+          loader.add("https://x/t_hop2.d.ts", Entry::Redirect(url("https://x/t_hop1.d.ts")));
         }
       }
       "missing" => {}
